@@ -276,6 +276,22 @@ theorem filter_sound (cap : Nat) (hc : 2 ≤ cap) (p : Pred) : ∀ (T : List Ivs
         rwa [getD_lt (filterT cap T q) i [] hi1] at this
   | other t => intro T hT row hrow _ _ _; exact hrow
 
+/-- **Any number of successive WHEREs** (a stack of Maps, or a filter pushed through several nodes): a row on which every
+predicate of the list is true belongs to the type narrowed by all of them in turn, and the narrowed type stays well formed. -/
+theorem filter_chain_sound (cap : Nat) (hc : 2 ≤ cap) : ∀ (ps : List Pred) (T : List Ivs), RowType cap T → ∀ (row : List Int),
+    RowIn row T → (∀ x ∈ row, InRange x) → (∀ p ∈ ps, PredOk T.length p) → (∀ p ∈ ps, evalPred row p = true) →
+    RowIn row (ps.foldl (filterT cap) T) ∧ RowType cap (ps.foldl (filterT cap) T)
+  | [], T, hT, row, hrow, _, _, _ => ⟨hrow, hT⟩
+  | p :: ps, T, hT, row, hrow, hr, hok, hev => by
+    have w := filter_wf cap hc p T hT
+    have h1 := filter_sound cap hc p T hT row hrow hr (hok p List.mem_cons_self) (hev p List.mem_cons_self)
+    simp only [List.foldl]
+    exact filter_chain_sound cap hc ps (filterT cap T p) w.1 row h1 hr
+      (fun q hq => by rw [w.2]; exact hok q (List.mem_cons_of_mem _ hq)) (fun q hq => hev q (List.mem_cons_of_mem _ hq))
+
+/-- a predicate the narrowing does not understand never narrows anything (the only safe answer) -/
+theorem filter_other_identity (cap : Nat) (T : List Ivs) (t : Bool) : filterT cap T (.other t) = T := rfl
+
 /-- Non-vacuity: `a >= 3 AND (a <= b OR <unsupported>)` on a two-column row type. -/
 example :
     filterT 128 [[(0, 10)], [(2, 4)]] (.and (.gt (.col 0) (.lit 3)) (.or (.lt (.col 0) (.col 1)) (.other false)))
